@@ -439,6 +439,10 @@ def section_differential(section, nbytes, prefix=""):
                 fo.attrs["digestdefined"], fo.attrs["crc"] = crc is not None, crc
                 out.append(fo)
             return out
+        if kind == "ref-rewritten":
+            # py7zr's UnpackInfo.write stores no folder CRCs: in what it writes back every digest travels in SubStreamsInfo
+            return [{"coders": [], "bind": [], "packed": [0], "total_out": 1, "unpacksizes": [5], "crc": (False, 0)},
+                    {"coders": [], "bind": [], "packed": [0], "total_out": 1, "unpacksizes": [7], "crc": (False, 0)}]
         return [{"coders": [], "bind": [], "packed": [0], "total_out": 1, "unpacksizes": [5], "crc": (False, 0)},
                 {"coders": [], "bind": [], "packed": [0], "total_out": 1, "unpacksizes": [7], "crc": (True, 0x11223344)}]
 
@@ -470,13 +474,35 @@ def section_differential(section, nbytes, prefix=""):
         except BudgetExceeded:
             return dict(cut=True)
         o["pos"] = (f1.pos, f2.pos)
+        if "ref" in o and "py" in o and section != "FilesInfo":
+            # read -> write: what py7zr writes back from the state it has just read must mean the same to the reference
+            g = SFile()
+            try:
+                e.method(obj, "write", g)
+                items = list(g.items)
+                h = SFile(items[1:])    # (the section id byte is consumed by the caller of the section parser)
+                if section == "PackInfo":
+                    o["ref2"] = e.call(REF, "rd_pack_info", h)
+                elif section == "UnpackInfo":
+                    o["ref2"] = e.call(REF, "rd_unpack_info", h)
+                else:
+                    cnt = obj.attrs.get("num_unpackstreams_folders") or []
+                    o["ref2"] = e.call(REF, "rd_substreams", h, ctx_folders(e, "ref-rewritten")) if len(cnt) else None
+                o["rewritten_all_read"] = (h.pos == len(h.items))
+            except ModelRaise as ex:
+                o["rewrite_exc"] = ex.name
+            except BudgetExceeded:
+                return dict(cut=True)
         if "ref" in o and "py" in o:
             # defined-flags are decided on this path (both parsers branched on them): make them concrete here, inside the path
             cb = lambda v: v if isinstance(v, bool) else bool(e.branch(e.truth(v)))
             R, P = o["ref"], o["py"].attrs
+            R2 = o.get("ref2")
             if section == "PackInfo":
                 R["crcs"] = [(cb(d), v) for d, v in R["crcs"]]
                 P["digestdefined"] = [cb(d) for d in P["digestdefined"]]
+                if R2 is not None:
+                    R2["crcs"] = [(cb(d), v) for d, v in R2["crcs"]]
             elif section == "UnpackInfo":
                 for rf in R:
                     rf["crc"] = (cb(rf["crc"][0]), rf["crc"][1])
@@ -493,6 +519,8 @@ def section_differential(section, nbytes, prefix=""):
             else:
                 R["digests"] = [[(cb(d), v) for d, v in row] for row in R["digests"]]
                 P["digestsdefined"] = [cb(d) for d in P["digestsdefined"]]
+                if R2 is not None:
+                    R2["digests"] = [[(cb(d), v) for d, v in row] for row in R2["digests"]]
         return o
 
     def eq(a, b):
@@ -575,6 +603,43 @@ def section_differential(section, nbytes, prefix=""):
                 c.append(dd == rd)
                 if rd:
                     c.append(eq(dv, rv))
+        # read -> write -> reference
+        if section != "FilesInfo":
+            c.append("rewrite_exc" not in o)
+            R2 = o.get("ref2")
+            if R2 is not None and "rewrite_exc" not in o:
+                c.append(o["rewritten_all_read"])
+                if section == "PackInfo":
+                    c.append(eq(R2["packpos"], R["packpos"]))
+                    c.append(len(R2["sizes"]) == len(R["sizes"]) and len(R2["crcs"]) == len(R["crcs"]))
+                    c += [eq(a, b) for a, b in zip(R2["sizes"], R["sizes"])]
+                    for (d2, v2), (d1, v1) in zip(R2["crcs"], R["crcs"]):
+                        c.append(d2 == d1)
+                        if d1 and d2:
+                            c.append(eq(v2, v1))
+                elif section == "UnpackInfo":
+                    c.append(len(R2) == len(R))
+                    for f2_, f1_ in zip(R2, R):
+                        c.append(len(f2_["coders"]) == len(f1_["coders"]) and len(f2_["unpacksizes"]) == len(f1_["unpacksizes"])
+                                 and len(f2_["bind"]) == len(f1_["bind"]) and len(f2_["packed"]) == len(f1_["packed"]))
+                        c += [eq(a, b) for a, b in zip(f2_["unpacksizes"], f1_["unpacksizes"])]
+                        c += [eq(a, b) for a, b in zip(f2_["packed"], f1_["packed"])]
+                        for (a1, b1), (a2, b2) in zip(f1_["bind"], f2_["bind"]):
+                            c += [eq(a1, a2), eq(b1, b2)]
+                        for c2, c1 in zip(f2_["coders"], f1_["coders"]):
+                            c += [eq(c2["nin"], c1["nin"]), eq(c2["nout"], c1["nout"]), (c2["props"] is None) == (c1["props"] is None)]
+                else:
+                    c.append(len(R2["counts"]) == len(R["counts"]))
+                    c += [eq(a, b) for a, b in zip(R2["counts"], R["counts"])]
+                    fs2, fs1 = [x for row in R2["sizes"] for x in row], [x for row in R["sizes"] for x in row]
+                    c.append(len(fs2) == len(fs1))
+                    c += [eq(a, b) for a, b in zip(fs2, fs1)]
+                    fd2, fd1 = [x for row in R2["digests"] for x in row], [x for row in R["digests"] for x in row]
+                    c.append(len(fd2) == len(fd1))
+                    for (d2, v2), (d1, v1) in zip(fd2, fd1):
+                        c.append(d2 == d1)
+                        if d1 and d2:
+                            c.append(eq(v2, v1))
         return c
 
     decide(eng, harness, post, {"b%d" % i: b for i, b in enumerate(bs)}, r, max_cex=4,
@@ -648,7 +713,34 @@ def replay_section(section, data):
         return True, "%s bytes %s: accepted by the reference (%s), py7zr raises %r" % (section, data, R, e)
     if f1.tell() != f2.tell():
         return True, "%s bytes %s: py7zr consumed %d bytes, the reference %d" % (section, data, f1.tell(), f2.tell())
-    return got != want, "%s bytes %s: py7zr %s, reference %s" % (section, data, got, want)
+    if got != want:
+        return True, "%s bytes %s: py7zr %s, reference %s" % (section, data, got, want)
+    if section == "FilesInfo":
+        return False, "%s bytes %s: py7zr and the reference agree: %s" % (section, data, got)
+    # read -> write -> reference
+    out = io.BytesIO()
+    try:
+        P.write(out)
+    except Exception as e:  # noqa
+        return True, "%s bytes %s: read fine (%s) but writing the same state back raises %r" % (section, data, got, e)
+    back = io.BytesIO(out.getvalue()[1:])
+    folders_ref2 = [dict(fo, crc=(False, 0)) for fo in folders_ref]
+    try:
+        if section == "PackInfo":
+            R2 = ref7z.rd_pack_info(back)
+            same = (R2["packpos"], R2["sizes"], R2["crcs"]) == (R["packpos"], R["sizes"], R["crcs"])
+        elif section == "UnpackInfo":
+            R2 = ref7z.rd_unpack_info(back)
+            strip = lambda fs: [dict(fo, crc=None) for fo in fs]
+            same = strip(R2) == strip(R)
+        else:
+            if not P.num_unpackstreams_folders:
+                return False, "nothing to write back"
+            R2 = ref7z.rd_substreams(back, folders_ref2)
+            same = R2 == R
+    except Exception as e:  # noqa
+        return True, "%s bytes %s: written back as %s, which the reference rejects: %r" % (section, data, out.getvalue().hex(), e)
+    return (not same), "%s bytes %s: written back as %s = %s, read as %s" % (section, data, out.getvalue().hex(), R2, R)
 
 
 def units(tier):
